@@ -161,6 +161,7 @@ type kitSink struct {
 	acc6   chan kitAccept
 	// OnConn, when set, owns the accepted connection (default: close it at once).
 	OnConn func(a kitAccept)
+	only   netip.Addr // set by newKitSinkAt: the single address the sink listens on
 }
 
 func newKitSink() (*kitSink, error) {
@@ -200,17 +201,27 @@ func (k *kitSink) loop(l net.Listener, fam string, out chan kitAccept) {
 	}
 }
 
-func (k *kitSink) Close() { k.l4.Close(); k.l6.Close() }
+func (k *kitSink) Close() {
+	k.l4.Close()
+	if k.l6 != nil {
+		k.l6.Close()
+	}
+}
 
 // barrier returns every connection accepted (on either listener) before this call. It dials one
 // marker connection per listener and drains the FIFO accept streams up to the marker: whatever
 // the code under test had connected before is returned, nothing that was not connected is
 // waited for. ok=false only if a marker never shows up (watchdog).
 func (k *kitSink) barrier() (accs []kitAccept, ok bool) {
-	for _, f := range []struct {
+	type lis struct {
 		addr string
 		ch   chan kitAccept
-	}{{fmt.Sprintf("127.0.0.1:%d", k.Port), k.acc4}, {fmt.Sprintf("[::1]:%d", k.Port), k.acc6}} {
+	}
+	targets := []lis{{fmt.Sprintf("127.0.0.1:%d", k.Port), k.acc4}, {fmt.Sprintf("[::1]:%d", k.Port), k.acc6}}
+	if k.only.IsValid() {
+		targets = []lis{{net.JoinHostPort(k.only.String(), fmt.Sprint(k.Port)), k.acc4}}
+	}
+	for _, f := range targets {
 		mc, err := net.DialTimeout("tcp", f.addr, kitWatchdog)
 		if err != nil {
 			return accs, false
@@ -320,8 +331,20 @@ func (d *kitDNS) answer(q []byte) []byte {
 	qend := off + 4
 	name := strings.ToLower(strings.Join(labels, "."))
 	d.mu.Lock()
-	d.Asked[name]++
 	ip, known := d.table[name]
+	if sched := kitRebindSchedule(name); sched != nil {
+		// a name whose answer changes from one A query to the next (rebinding name server):
+		// the n-th A query gets the n-th address of the schedule spelled in the name itself
+		n := d.Asked["A:"+name]
+		if n >= len(sched) {
+			n = len(sched) - 1
+		}
+		ip, known = sched[n], true
+		if qtype == 1 {
+			d.Asked["A:"+name]++
+		}
+	}
+	d.Asked[name]++
 	d.mu.Unlock()
 
 	resp := make([]byte, 0, 128)
@@ -350,6 +373,68 @@ func (d *kitDNS) answer(q []byte) []byte {
 		resp = append(resp, b[:]...)
 	}
 	return resp
+}
+
+// kitRebindName builds a host name under rebind.test whose successive A answers are the given
+// addresses (the last one repeats): "s-7f320001-7f460001-n<nonce>.rebind.test".
+func kitRebindName(nonce string, answers ...netip.Addr) string {
+	var sb strings.Builder
+	sb.WriteString("s")
+	for _, a := range answers {
+		b := a.As4()
+		fmt.Fprintf(&sb, "-%02x%02x%02x%02x", b[0], b[1], b[2], b[3])
+	}
+	sb.WriteString("-n" + nonce + ".rebind.test")
+	return sb.String()
+}
+
+func kitRebindSchedule(name string) []netip.Addr {
+	if !strings.HasSuffix(name, ".rebind.test") {
+		return nil
+	}
+	first := name[:len(name)-len(".rebind.test")]
+	if strings.Contains(first, ".") || !strings.HasPrefix(first, "s-") {
+		return nil
+	}
+	var out []netip.Addr
+	for _, part := range strings.Split(first[2:], "-") {
+		if len(part) != 8 {
+			continue
+		}
+		var b [4]byte
+		ok := true
+		for i := 0; i < 4; i++ {
+			var v int
+			if _, err := fmt.Sscanf(part[2*i:2*i+2], "%02x", &v); err != nil {
+				ok = false
+				break
+			}
+			b[i] = byte(v)
+		}
+		if ok {
+			out = append(out, netip.AddrFrom4(b))
+		}
+	}
+	return out
+}
+
+// AQueries: how many A queries the responder has answered for a scheduled name.
+func (d *kitDNS) AQueries(name string) int {
+	d.mu.Lock()
+	defer d.mu.Unlock()
+	return d.Asked["A:"+strings.ToLower(name)]
+}
+
+// newKitSinkAt: a sink whose only listener is bound to ONE IPv4 address (not the wildcard), on
+// a free port: a connection to any other 127.x.y.z on that port is refused.
+func newKitSinkAt(ip netip.Addr) (*kitSink, error) {
+	l4, err := net.Listen("tcp4", net.JoinHostPort(ip.String(), "0"))
+	if err != nil {
+		return nil, err
+	}
+	k := &kitSink{l4: l4, Port: l4.Addr().(*net.TCPAddr).Port, acc4: make(chan kitAccept, 64), only: ip}
+	go k.loop(l4, "v4", k.acc4)
+	return k, nil
 }
 
 // ---------------------------------------------------------------- liberal CIDR membership
